@@ -106,6 +106,7 @@ def build_unit(work, name, u):
     c = os.path.join(work, name + '.c'); info = os.path.join(work, name + '.info.json')
     cmd = [sys.executable, os.path.join(ENGINE, 'ir2c.py'), c, ll, '--roots', ','.join(u['roots']), '--info', info]
     if u.get('stubs'): cmd += ['--stub', ','.join(u['stubs'])]
+    if u.get('globals'): cmd += ['--globals', ','.join(u['globals'])]
     r = sh(cmd)
     if r.returncode: raise Broken('ir2c failed for unit %s:\n%s' % (name, r.stdout[-3000:]))
     inf = json.load(open(info)); inf['seconds'] = round(time.time() - t0, 2); inf['mode'] = mode; inf['source'] = ', '.join(srcs)
